@@ -258,3 +258,38 @@ func HFaultJsight() {
 }
 
 func init() { vRegister("HFaultJsight", HFaultJsight) }
+
+// HFaultPathParam (C03): a second interaction on /cats/{<name>} with a SYMBOLIC two-byte
+// parameter name is appended to a document that already has GET /cats/{id}: it must be
+// rejected as an ambiguous path on the appended directive exactly when the name differs
+// from "id" in any byte (the solver looks for a differing name that is accepted, e.g. one
+// that differs in letter case only), and accepted when the name is "id".
+func HFaultPathParam() {
+	kind := vInt("kind", 0, 2)
+	x, y := vByte("x"), vByte("y")
+	vAssume(vIsAlnum(x) && vIsAlnum(y))
+	name := string([]byte{x, y})
+	base := "JSIGHT 0.3\nGET /cats/{id}\n  200 any\n"
+	var text string
+	switch kind {
+	case 0:
+		text = "POST /cats/{" + name + "}\n  200 any\n"
+	case 1:
+		text = "URL /cats/{" + name + "}\n  DELETE\n    200 any\n"
+	default:
+		text = "PUT /cats/{" + name + "}/toys\n  200 any\n"
+	}
+	root := base + text
+	_, je := vBuildProject(root, nil)
+	if name == "id" {
+		vAssert(je == nil, "c03-same-path-parameter-rejected")
+		vReach("same-parameter")
+		return
+	}
+	vAssert(je != nil, "c03-ambiguous-path-accepted")
+	vAssert(strings.Contains(je.Msg, "ambiguous paths"), "c03-ambiguous-path-wrong-message")
+	vAssert(strings.HasSuffix(je.File.Name(), "/root.jst") && int(je.Line) == vLineOf(root, len(base)), "c03-ambiguous-path-error-on-wrong-line")
+	vReach("ambiguous-found")
+}
+
+func init() { vRegister("HFaultPathParam", HFaultPathParam) }
